@@ -194,4 +194,72 @@ def dnsIpSpec (rules : List DnsIpRule) (answers : List Nat) : Bool :=
   | r :: rs =>
     if (decide (∃ a ∈ answers, ∃ p ∈ r.ps, contains p a)) != r.neg then r.reject else dnsIpSpec rs answers
 
+/-! ## Traffic routing: address-set rules through the shared slot table
+(`control/routing_matcher_userspace.go` `RoutingMatcher.Match`, address-set branch) -/
+
+inductive SetKind where
+  | dip | sip | mac
+deriving DecidableEq, Repr
+
+/-- One single-condition routing rule `[!]dip(..)|sip(..)|mac(..) -> out`. -/
+structure AddrRule where
+  kind : SetKind
+  neg : Bool
+  out : Nat
+  raw : List Prefix      -- dip / sip: the listed prefixes
+  macs : List Nat        -- mac: the listed MACs (value of the 16-byte form, bytes 10..15)
+
+/-- what the builder is asked to store for the rule -/
+def AddrRule.op (r : AddrRule) : SetOp :=
+  match r.kind with
+  | .mac => .mac r.macs r.neg
+  | _ => .ip r.raw
+
+structure AddrPkt where
+  src : Nat
+  dst : Nat
+  mac : Nat
+
+/-- `Match` hands the destination address to `ip`/`dip` sets, the source address to `sip` sets and
+the source MAC (16-byte form) to `mac` sets. -/
+def AddrRule.target (r : AddrRule) (pk : AddrPkt) : Nat :=
+  match r.kind with
+  | .dip => pk.dst
+  | .sip => pk.src
+  | .mac => pk.mac
+
+/-- `RoutingMatcher.Match` on such rules: rule `k` reads the LPM slot whose index the builder wrote
+into its match set; a missing slot is the code's `bad lpm index` error (`none`). -/
+def routeViaSlots (tries : List (List Prefix)) : List (AddrRule × Nat) → AddrPkt → Nat → Option Nat
+  | [], _, fb => some fb
+  | (r, i) :: rest, pk, fb =>
+    match tries[i]? with
+    | none => none
+    | some set =>
+      if (trieMatch set (r.target pk)) != r.neg then some r.out else routeViaSlots tries rest pk fb
+
+/-- The documented meaning of one condition. `mac(..)` holds for the listed MACs; a negated MAC rule
+additionally never applies to the zero MAC (traffic without a source MAC). -/
+def AddrRule.listed (r : AddrRule) (pk : AddrPkt) : Bool :=
+  match r.kind with
+  | .mac => decide (pk.mac ∈ r.macs ∨ (r.neg = true ∧ pk.mac = 0))
+  | _ => decide (∃ p ∈ r.raw, contains p (r.target pk))
+
+/-- First rule, top to bottom, whose condition holds; otherwise the fallback. -/
+def routeSpec : List AddrRule → AddrPkt → Nat → Nat
+  | [], _, fb => fb
+  | r :: rs, pk, fb => if (r.listed pk) != r.neg then r.out else routeSpec rs pk fb
+
+/-- The whole pipeline of the model: compile the rules' sets with sharing, then match. -/
+def routeCompiled (hash : List Prefix → Nat) (rules : List AddrRule) (pk : AddrPkt) (fb : Nat) : Option Nat :=
+  let r := Builder.addOps hash Builder.empty (rules.map AddrRule.op)
+  routeViaSlots r.1.tries (rules.zip r.2) pk fb
+
+/-! ## Parallel construction (`BuildUserspace` with more than 4 sets, the key conversion of
+`buildRoutingKernspace` with at least 4): one worker per slot, each writes its own index. -/
+
+/-- The workers run in the order `sched`; worker `i` stores `g i` at index `i`. -/
+def parallelFill {α} (g : Nat → α) (sched : List Nat) (init : List α) : List α :=
+  sched.foldl (fun arr i => arr.set i (g i)) init
+
 end DaeVerif.C12
